@@ -7,7 +7,9 @@
  * A schedule is a list of K1 work items (harness/K1_FORMAT.md) that is run as ONE batch through one
  * entry point of a manager whose every handler is hooked by k13_tramp.S:
  *
- *      S <sid> ep=<0..6>
+ *      S <sid> ep=<0..7>     0-6: entry points of K1_FORMAT.md; 7: streaming direct API of
+ *                            CHACHA20-POLY1305 / AES-GCM (INIT, two UPDATEs, FINALIZE) with a context
+ *                            owned by this harness that is scanned after FINALIZE (kind=ctx)
  *      P <hex>             optional; plaintext belonging to the NEXT item when its msg is ciphertext
  *      I <K1 work item>
  *      ...
@@ -28,7 +30,7 @@
  *      lane with job_in_lane == NULL every data-bearing field must be all-zero (its reset image).
  *
  * Output (stdout), one record per line:
- *   HIT    sid= var= ep= call= fn= kind=reg|stack|mgr where= len= secret=<item>:<class>+<off> leftby= bytes=
+ *   HIT    sid= var= ep= call= fn= kind=reg|stack|mgr|ctx where= len= secret=<item>:<class>+<off> leftby= bytes=
  *   DIRTY  sid= var= ep= ooo= field= lanes=<hex mask> first_call= first_fn= idle_seen=<0|1> count=
  *          lane=<first lane free and dirty at the end> public=<units found in public data>/<units> now=<hex>
  *   USED   sid= var= ooo= field=          (a busy lane held non-zero data in this field)
@@ -1261,6 +1263,97 @@ flush_dirty(void)
                 }
 }
 
+/* ------------------------------------------------------------------------------------------ */
+/* entry point 7: streaming direct API with a context owned by this harness.  The context is
+ * caller memory, but the library promises to wipe what it kept there once the operation is
+ * finalised (SAFE_DATA blocks of chacha20_poly1305.c, gcm finalize); after FINALIZE the context
+ * is scanned like manager memory (kind=ctx). */
+static uint8_t *ctx_buf;
+static size_t ctx_len;
+static const char *ctx_name;
+
+static void
+ctx_cb(const uint8_t *at, uint32_t sec, uint32_t off, uint32_t len, void *vctx)
+{
+        char where[64];
+
+        (void) vctx;
+        snprintf(where, sizeof(where), "%s+0x%zx", ctx_name, (size_t) (at - ctx_buf));
+        report_hit("ctx", where, at, sec, off, len, call_no, 999, 999);
+}
+
+static void
+run_ctx_direct(imbh_run *r, const int idx)
+{
+        const imbh_item *it = r->it;
+        const struct imbh_keys *k = r->keys;
+        uint8_t *dbase = it->inplace ? r->src : r->dst;
+        const uint8_t *src = r->src + it->coff;
+        uint8_t *dst = dbase + dst_ptr_offset(it);
+        const uint64_t len = it->clen;
+        const size_t half = (size_t) (len / 2) & ~(size_t) 15;
+
+        r->done = 1;
+        r->status = IMB_STATUS_COMPLETED;
+        if (it->cipher == IMB_CIPHER_CHACHA20_POLY1305 && it->key.n == 32 && it->iv.n == 12) {
+                struct chacha20_poly1305_context_data *ctx = (void *) ctx_buf;
+
+                ctx_len = sizeof(*ctx);
+                ctx_name = "chacha20_poly1305_context_data";
+                memset(ctx_buf, 0, ctx_len);
+                IMB_CHACHA20_POLY1305_INIT(tmgr, k->enc_ptr, ctx, r->iv, r->aad, it->aad.n);
+                if (it->dir == IMB_DIR_ENCRYPT) {
+                        IMB_CHACHA20_POLY1305_ENC_UPDATE(tmgr, k->enc_ptr, ctx, dst, src, half);
+                        IMB_CHACHA20_POLY1305_ENC_UPDATE(tmgr, k->enc_ptr, ctx, dst + half, src + half, len - half);
+                        IMB_CHACHA20_POLY1305_ENC_FINALIZE(tmgr, ctx, r->tag, it->tag);
+                } else {
+                        IMB_CHACHA20_POLY1305_DEC_UPDATE(tmgr, k->enc_ptr, ctx, dst, src, half);
+                        IMB_CHACHA20_POLY1305_DEC_UPDATE(tmgr, k->enc_ptr, ctx, dst + half, src + half, len - half);
+                        IMB_CHACHA20_POLY1305_DEC_FINALIZE(tmgr, ctx, r->tag, it->tag);
+                }
+        } else if (it->cipher == IMB_CIPHER_GCM && it->iv.n == 12 &&
+                   (it->key.n == 16 || it->key.n == 24 || it->key.n == 32)) {
+                struct gcm_context_data *ctx = (void *) ctx_buf;
+                const struct gcm_key_data *key = k->enc_ptr;
+
+                ctx_len = sizeof(*ctx);
+                ctx_name = "gcm_context_data";
+                memset(ctx_buf, 0, ctx_len);
+#define GCM_SEQ(B)                                                                                 \
+        do {                                                                                       \
+                IMB_AES##B##_GCM_INIT(tmgr, key, ctx, r->iv, r->aad, it->aad.n);                   \
+                if (it->dir == IMB_DIR_ENCRYPT) {                                                  \
+                        IMB_AES##B##_GCM_ENC_UPDATE(tmgr, key, ctx, dst, src, half);               \
+                        IMB_AES##B##_GCM_ENC_UPDATE(tmgr, key, ctx, dst + half, src + half, len - half); \
+                        IMB_AES##B##_GCM_ENC_FINALIZE(tmgr, key, ctx, r->tag, it->tag);            \
+                } else {                                                                           \
+                        IMB_AES##B##_GCM_DEC_UPDATE(tmgr, key, ctx, dst, src, half);               \
+                        IMB_AES##B##_GCM_DEC_UPDATE(tmgr, key, ctx, dst + half, src + half, len - half); \
+                        IMB_AES##B##_GCM_DEC_FINALIZE(tmgr, key, ctx, r->tag, it->tag);            \
+                }                                                                                  \
+        } while (0)
+                if (it->key.n == 16)
+                        GCM_SEQ(128);
+                else if (it->key.n == 24)
+                        GCM_SEQ(192);
+                else
+                        GCM_SEQ(256);
+        } else {
+                r->skip = "unsupported";
+                return;
+        }
+        /* keystream of this item is known now */
+        if (len >= 8) {
+                uint8_t *ks = malloc((size_t) len);
+
+                for (size_t j = 0; j < len; j++)
+                        ks[j] = it->msg.p[it->coff + j] ^ dst[j];
+                add_secret(idx, "keystream", ks, (size_t) len);
+                free(ks);
+        }
+        scan_region(ctx_buf, ctx_len, ctx_cb, NULL);
+}
+
 static void
 run_schedule(imbh_item *items, imbh_bytes *pts, const int n)
 {
@@ -1303,7 +1396,13 @@ run_schedule(imbh_item *items, imbh_bytes *pts, const int n)
         }
 
         /* 3. the batch */
-        imbh_run_batch(tmgr, cur_ep, runs, n);
+        if (cur_ep == 7) {
+                for (int i = 0; i < n; i++)
+                        if (runs[i]->prep_err == 0)
+                                run_ctx_direct(runs[i], i);
+        } else {
+                imbh_run_batch(tmgr, cur_ep, runs, n);
+        }
         sched_active = 0;
 
         /* 4. keystream = plaintext xor ciphertext of the stream modes, scanned in the final state */
@@ -1461,6 +1560,7 @@ main(int argc, char **argv)
         tmgr = make_mgr(variant);
         mgr_size = imb_get_mb_mgr_size();
         mgr_shadow = malloc(mgr_size);
+        ctx_buf = aligned_alloc(64, 4096);
         mgr_reported = calloc(1, mgr_size);
         hooks_install(tmgr);
         fprintf(stderr, "k13: variant=%s used_arch=%u type=t%u handlers=%d simd_level=%u mgr_size=%zu\n",
